@@ -463,6 +463,30 @@ pub fn exec(r: &mut Rng, n: usize, thorough: bool, out: &mut Out) {
         fixed.push((with(rope.clone(), vec![Dup, Eql]), HashMap::new()));
         fixed.push((with(rope.clone(), vec![PushIC(0u8.into()), Eql]), HashMap::new()));
     }
+    // success and type-failure paths that random typed programs rarely reach (found by line coverage of the executor)
+    {
+        let v3 = vec![VEmpty, PushIC(3u8.into()), VCons, PushIC(2u8.into()), VCons, PushIC(1u8.into()), VCons];
+        let with = |pre: Vec<OpCode>, mid: Vec<OpCode>, post: Vec<OpCode>| {
+            let mut v = pre;
+            v.extend(mid);
+            v.extend(post);
+            v
+        };
+        for idx in [0u8, 1, 2, 3] {
+            // VSet pops vector (top), index, value
+            fixed.push((with(vec![PushIC(9u8.into()), PushIC(idx.into())], v3.clone(), vec![VSet]), HashMap::new()));
+            fixed.push((with(vec![PushIC(9u8.into()), PushIC(idx.into())], v3.clone(), vec![VSet, PushIC(idx.into()), Dup, Noop]), HashMap::new()));
+            fixed.push((with(vec![PushIC(7u8.into()), PushIC(idx.into())], vec![PushB(vec![1, 2, 3])], vec![BSet]), HashMap::new()));
+        }
+        // slices of the wrong kind of value, conversions of byte strings that are not 32 bytes long
+        fixed.push((vec![PushIC(1u8.into()), PushIC(0u8.into()), PushIC(5u8.into()), VSlice], HashMap::new()));
+        fixed.push((vec![PushIC(1u8.into()), PushIC(0u8.into()), PushB(vec![1, 2, 3]), VSlice], HashMap::new()));
+        fixed.push((vec![PushIC(1u8.into()), PushIC(0u8.into()), VEmpty, BSlice], HashMap::new()));
+        for n in [0usize, 1, 31, 33, 64] {
+            fixed.push((vec![PushB(vec![0xabu8; n]), BtoI], HashMap::new()));
+        }
+        fixed.push((vec![PushB(vec![0xabu8; 32]), BtoI], HashMap::new()));
+    }
     for (ops, heap) in fixed {
         if let Some(l) = run_line(&ops, &heap) {
             out.emit2(l);
